@@ -19,6 +19,7 @@ import (
 const (
 	c03IncName    = "c03_included.liquid"
 	c03SubIncName = "partials/nested/c03_sub.liquid"
+	c03NeedName   = "c03_need.liquid"
 )
 
 var c03Templates = []string{
@@ -57,6 +58,8 @@ var c03Templates = []string{
 	"{{ na | sort | join }}|{{ na | sort_natural | join }}|{{ na | reverse | first }}|{{ nl | sort: 'w' | size }}|{{ na | uniq | compact | concat: na | size }}|{{ na | join }}",
 	// values with methods of their own that CHANGE them when called (a buffer or reader is drained by WriteTo/Read/Next): printing must only look
 	"{{ buf }}|{{ rd }}|{{ hold.Body }}|{{ hold.R }}|{{ hold.Body | size }}|{{ buf | append: '' | size }}|{% for x in hold.L %}{{ x }}{% endfor %}|{{ buf | json }}",
+	// the same cached file included from two LINES of one template; which of them runs (and fails) depends on the bindings
+	"{% if n %}{% include \"" + c03NeedName + "\" %}{% endif %}\n\n{% include \"" + c03NeedName + "\" %}",
 	// thorough
 	"{{ ints | sort | join }}{{ strs | reverse | join }}{{ arr | sort | first }}{{ drop | sort | join }}{{ pst.A }}{{ st.C | sort | join }}",
 	"{{ ms | sort | join }}{{ rng | reverse | join }}{% for kv in m %}{{ kv[0] }}{% endfor %}{{ m.j | sort | join }}",
@@ -121,6 +124,15 @@ func c03Engine() *liquid.Engine {
 	e := liquid.NewEngine()
 	e.RegisterFilter("failing", func(v any) (any, error) { return nil, errors.New("failing filter") })
 	if _, err := e.ParseTemplateAndCache([]byte("{% assign x = 'inc' %}{{ x }}{{ a | sort | join }}{% for i in a %}{% cycle '1', '2' %}{% endfor %}"), c03IncName, 1); err != nil {
+		panic(explore.BaselineFailure{Msg: "harness: " + err.Error()})
+	}
+	e.RegisterFilter("need", func(v any) (any, error) {
+		if v == nil {
+			return nil, errors.New("a value is needed")
+		}
+		return v, nil
+	})
+	if _, err := e.ParseTemplateAndCache([]byte("<{{ n | need }}>"), c03NeedName, 1); err != nil {
 		panic(explore.BaselineFailure{Msg: "harness: " + err.Error()})
 	}
 	if _, err := e.ParseTemplateAndCache([]byte("sub:{{ x }}{% assign x = 'in-sub' %}"), c03SubIncName, 1); err != nil {
@@ -241,7 +253,7 @@ func firstDiff(a, b string) string {
 }
 
 func c03Families(tier string) []explore.Family {
-	nT, nB, depth := 28, 3, 2
+	nT, nB, depth := 29, 3, 2
 	if tier == "thorough" {
 		nT, nB, depth = len(c03Templates), 4, 3
 	}
@@ -418,7 +430,7 @@ func init() {
 	explore.Register(&explore.Prop{
 		ID:    "C03",
 		Level: "model_checking",
-		Rule: "explicit-state search over histories of renders R(t,b) on one shared world (one engine, templates parsed once, binding environments built once and shared by reference): all histories of length <=2 over 28 templates x 3 environments (quick) / <=3 over 38 x 4 (thorough), each replayed on a fresh world, plus 40-step round-robin histories from every starting operation; plus a family that keeps the []byte returned by a render of 0..2^20 bytes (13 sizes around 64, 4096, 65536) and re-reads it after later renders; " +
+		Rule: "explicit-state search over histories of renders R(t,b) on one shared world (one engine, templates parsed once, binding environments built once and shared by reference): all histories of length <=2 over 29 templates x 3 environments (quick) / <=3 over 39 x 4 (thorough), each replayed on a fresh world, plus 40-step round-robin histories from every starting operation; plus a family that keeps the []byte returned by a render of 0..2^20 bytes (13 sizes around 64, 4096, 65536) and re-reads it after later renders; " +
 			"templates cover assign of a bound name, capture, shadowing loops, cycle groups, nested loops with break, every array filter on bound arrays (incl. aliased sub-slices and spare capacity), include, a render failing half-way, tablerow, typed slices, structs, pointers, Drops, MapSlice, ranges; " +
 			"invariants after every step: deep snapshot of every environment unchanged (slices up to capacity, unexported fields, aliasing), result equals the solo result on a fresh engine/parse/bindings; structural changes of render trees / engine configuration are recorded (not alarms: the statement defines template immutability through re-render equality); state = canonical world snapshot after the history; transition = one render",
 		Assumptions: []string{
